@@ -99,12 +99,17 @@ bool ActionExecutor::cancel(ActionId action_id) {
 }
 
 void ActionExecutor::cancelAll() {
+  //! 所有排队的动作都要取消：只 stop() 各队列头部的动作的话，它们都还留在队列里，
+  //! 执行器停在已停止的头部动作上，下一次 append() 之后剩下的动作又会被逐个执行
   for (auto &action_deque : action_deque_array_) {
-    if (!action_deque.empty()) {
-      auto action_item = action_deque.front();
-      action_item.action->stop();
+    for (auto &item : action_deque) {
+      item.action->stop();
+      delete item.action;
     }
+    action_deque.clear();
   }
+  curr_action_deque_index_ = -1;
+  schedule();
 }
 
 ActionExecutor::ActionId ActionExecutor::allocActionId() { return ++action_id_alloc_counter_; }
